@@ -96,20 +96,33 @@ def run_shard(binpath, seed, tier, n, outdir, replay):
     os.makedirs(outdir, exist_ok=True)
     cmd = [binpath, "--seed", str(seed), "--tier", tier, "--out", outdir, "--mode", "cyclic", "--n", str(n)]
     if replay: cmd += ["--replay", replay]
+    # state-level tie (see engine_common.run_shard): digest of the real engine's persistent bookkeeping after every op
+    state = not os.environ.get("VERIF_NO_STATE_TIE")
+    if state: cmd += ["--state", "--state-max", str(ec.STATE_MAX_CASES)]
     p = subprocess.run(cmd, stdout=subprocess.PIPE, stderr=subprocess.STDOUT, text=True, timeout=7200)
     if p.returncode != 0:
         return {"error": f"harness exited {p.returncode}: {p.stdout[-2000:]}"}
     outs = {}
-    runs = [("asis", ["msg"]), ("desc", ["desc"]), ("cyc", ["cyc"])] + [("+".join(t), list(t)) for t in TOGGLE_SETS]
+    runs = [("asis", ["msg"] + (["state", f"statemax={ec.STATE_MAX_CASES}"] if state else [])), ("desc", ["desc"]), ("cyc", ["cyc"])] + [("+".join(t), list(t)) for t in TOGGLE_SETS]
+    mstate = None
     for name, args in runs:
         path = os.path.join(outdir, "model_" + name + ".txt")
         rc, err = vlib.run_driver("drv_engine", os.path.join(outdir, "ops.txt"), path, args)
         if rc != 0:
             return {"error": f"driver {name} exited {rc}: {err[-1000:]}"}
-        outs[name] = open(path).read().split("\n")
+        lines = open(path).read().split("\n")
+        if "state" in args:
+            parts = [l.split(ec.STATE_SEP, 1) for l in lines]
+            lines = [q[0] for q in parts]
+            mstate = [(q[1] if len(q) == 2 else None) for q in parts]
+        outs[name] = lines
     rd = lambda f: open(os.path.join(outdir, f)).read().split("\n")
-    return {"ops": rd("ops.txt"), "impl": rd("impl.txt"), "expect": rd("expect.txt"), "models": outs,
-            "report": json.load(open(os.path.join(outdir, "report.json")))}
+    sh = {"ops": rd("ops.txt"), "impl": rd("impl.txt"), "expect": rd("expect.txt"), "models": outs,
+          "report": json.load(open(os.path.join(outdir, "report.json")))}
+    if state:
+        if not os.path.exists(os.path.join(outdir, "state_impl.txt")): return {"error": "harness did not write state_impl.txt (--state)"}
+        sh["state_impl"], sh["model_state"] = rd("state_impl.txt"), mstate
+    return sh
 
 
 def analyse(sh):
@@ -120,7 +133,8 @@ def analyse(sh):
     cyc = models["cyc"]
     res = {"cases": 0, "lines": 0, "cyc_lines": 0, "cyc_disagree": [], "disagree": [], "order_sensitive": 0,
            "order_matched_desc": 0, "order_matched_tape": 0, "order_unresolved": 0, "impl_fail": 0, "attributed": {}, "unexplained": [],
-           "classes": {}}
+           "classes": {}, "state_lines": 0, "state_cases": 0, "state_cases_not_judged": 0, "state_disagree": []}
+    st_i, st_m = sh.get("state_impl"), sh.get("model_state")
     for (a, b) in ec.split_cases(ops):
         if b - a <= 1: continue
         res["cases"] += 1
@@ -150,6 +164,22 @@ def analyse(sh):
                 if t is not None: res["order_matched_tape"] += 1; same_tape = True
                 else: res["order_unresolved"] += 1
             else: res["disagree"].append({"case": text, "op": ops[dis[0]], "impl": impl[dis[0]], "model": asis[dis[0]]})
+        # 2b. STATE-LEVEL tie, only on cases whose values and executor invocations agree STRICTLY with the as-is model
+        # (no order choice point, every line equal — including the cases where both show a known finding F3/F31/F32):
+        # after every op the digest of the real engine's persistent bookkeeping equals the digest of the model state
+        # (the model's `sccRun` bit, which the code does not store, is not part of the digest)
+        if st_i is not None and st_m is not None:
+            if osens or dis: res["state_cases_not_judged"] += 1
+            else:
+                sidx = [i for i in idx if i < len(st_m) and st_m[i] is not None and i < len(st_i) and st_i[i] not in ("", "crash", "-")]
+                if sidx: res["state_cases"] += 1
+                for i in sidx:
+                    res["state_lines"] += 1
+                    if st_i[i] != st_m[i]:
+                        k, fields, mnode, inode = ec.state_diff(st_m[i], st_i[i])
+                        res["state_disagree"].append({"tie": "state digest, full as-is model", "case": text, "op": ops[i], "fields": fields,
+                                                      "impl": f"state after the op, node {k}: {inode}", "model": f"state after the op, node {k}: {mnode}"})
+                        break
         # 3. oracle + attribution
         bad = [i for i in idx if vals(impl[i]) != (exp[i] if i < len(exp) else None)]
         if bad:
@@ -234,6 +264,11 @@ def collect(ctx, n_quick=450, n_thorough=4000):
     dist["order_sensitive_cases_matching_no_order_(oracle_only)"] = sum(a["order_unresolved"] for a in an)
     dist["cases_compared_strictly_with_as_is_model"] = sum(a["cases"] - a["order_sensitive"] for a in an)
     dist["cases_where_impl_violates_oracle"] = sum(a["impl_fail"] for a in an)
+    if not os.environ.get("VERIF_NO_STATE_TIE"):
+        dist["state_lines_compared"] = sum(a["state_lines"] for a in an)
+        dist["state_cases_compared_(values_and_invocations_agree_strictly_with_as_is_model)"] = sum(a["state_cases"] for a in an)
+        dist["state_cases_not_judged_(order_sensitive_or_value_tie_differs)"] = sum(a["state_cases_not_judged"] for a in an)
+        dist["state_disagreements"] = sum(len(a["state_disagree"]) for a in an)
     cl = {}
     for a in an:
         for k, v in a["classes"].items(): cl[k] = cl.get(k, 0) + v
@@ -282,6 +317,8 @@ def fill(res, an):
             res.disagreements.append({"which": "full as-is (Model/Engine.lean)", **d})
         for d in a["cyc_disagree"]:
             res.disagreements.append({"which": "cycle model (Model/Cycle.lean)", **d})
+        for d in a["state_disagree"][:3]:
+            res.disagreements.append({"which": "full as-is (Model/Engine.lean), state digest", **d})
 
 
 def run(ctx):
